@@ -528,7 +528,8 @@ bool owns(const std::string& prop, const std::string& c) {
     return s.count(c) > 0 || c.rfind("asan:", 0) == 0;
 }
 
-static const std::vector<std::vector<std::string>> KEYS = {{"a"}, {"b"}, {"a", "x"}, {"a", "y"}, {"b", "x"}, {"a", "x", "p"}};
+// (names that are proper prefixes of one another on purpose: a level matches by equality / FULL regex match only)
+static const std::vector<std::vector<std::string>> KEYS = {{"a"}, {"b"}, {"a", "x"}, {"a", "y"}, {"b", "x"}, {"a", "x", "p"}, {"ab"}, {"a", "xy"}};
 
 Json key_json(const std::vector<std::string>& k) {
     Json p = Json::array();
